@@ -4,14 +4,13 @@
  'replace': ['igris_memmem', 'memcpy'],
  'include': ['/verif/units/C19/cxxshim'],
  'params': {'GROW': [0, 1]},
- 'clauses': 'MEMORY part of the replace_substrings contract (the match structure is unit replace_substrings_matches). replace_substrings(buffer, maxsize, input, inlen, sub, sublen, rep, replen) against the reference left-to-right non-overlapping substitution '
-            '(match m = FIRST occurrence of sub in input at or behind the end of match m-1; the search for match 0 starts at 0): for every m: sub occurs at '
-            'the recorded position p_m (byte for byte), it does not occur at any position between the end of the previous match and p_m (a differing byte '
-            'is exhibited), the next search starts at p_m + sublen; behind the last match sub does not occur any more; sublen == 0: no match (plain copy); '
-            'every memcpy and the final terminator store stay inside buffer[0..maxsize) (exact-size object), inside input[0..inlen), sub, rep (exact-size, '
-            'non-terminated); the terminator is stored at the output length (sum of the copied gaps and replacements); terminates. '
-            'GROW=0: replen <= sublen, both symbolic; GROW=1: sublen == 1, replen == 2 (a growing replacement; the products are by constants). '
-            'The copied CONTENT is checked on igris::replace (same loop, unit cxx_replace): legacy contract replacement havocs the whole buffer at each memcpy.',
+ 'clauses': 'MEMORY part of the replace_substrings contract: every memcpy and the final terminator store stay inside buffer[0..maxsize) (exact-size '
+            'object) and inside input[0..inlen), sub, rep (exact-size, non-terminated); the scan stays inside the input and terminates; the terminator is '
+            'stored at the output length (sum of the copied gaps and replacements), which is < maxsize; sublen == 0: no match, plain copy. '
+            'GROW=0: replen <= sublen, both symbolic; GROW=1: sublen == 1, replen == 2 (a growing replacement; products by constants only). '
+            'The match structure (left-to-right, non-overlapping, first occurrence) is proved by the thorough-tier units replace_substrings_matches / '
+            'replace_substrings_first, the copied CONTENT on igris::replace (same loop, units cxx_replace_*): legacy contract replacement havocs the '
+            'whole buffer at each memcpy, dfcc does not finish on this loop.',
  'kf': ['C19_replace_substrings_maxsize'],
  'inject': [
    {'file': 'igris/string/replace_substrings.c', 'func': 'replace_substrings', 'at': 'func-begin', 'ghost': 'g_in0 = input; g_buf0 = buffer;'},
